@@ -77,3 +77,4 @@ func SetFile(path string, content string) {}
 func WitnessList(name string, parts ...string) {}
 func VfsOnly(prefix string) {}
 func FlipOrder(m any) {}
+func Thorough() bool { return false }
